@@ -522,8 +522,16 @@ mutual
         if (declNames st).contains name then
           -- the name was deleted from declsByName while its declaration stayed in the package (K21):
           -- AddDecl drops the deeply-equal TypeDecl, but the methods are closures and are added again
-          set ({ st with inProgress := st.inProgress.filter (·.1 ≠ name), hidden := st.hidden.filter (· ≠ name) } : GenSt)
-          if (match body with | .plain _ m => m | _ => false) then issue "duplicate-method"
+          let same := st.decls.any fun d => d.name == name && d.ty.render == r.ty.render
+          if same then
+            set ({ st with inProgress := st.inProgress.filter (·.1 ≠ name), hidden := st.hidden.filter (· ≠ name) } : GenSt)
+            if (match body with | .plain _ m => m | _ => false) then issue "duplicate-method"
+          else
+            -- a DIFFERENT type under the deleted name (e.g. the root type named like such a definition):
+            -- both declarations are emitted and the package does not compile
+            set ({ st with inProgress := st.inProgress.filter (·.1 ≠ name), hidden := st.hidden.filter (· ≠ name),
+                           decls := st.decls ++ [{ name, ty := r.ty, comment := t.node.description, body, schema := tEff }] } : GenSt)
+            issue "redeclared-type"
         else
           set ({ st with inProgress := st.inProgress.filter (·.1 ≠ name),
                          decls := st.decls ++ [{ name, ty := r.ty, comment := t.node.description, body, schema := tEff }] } : GenSt)
